@@ -5,6 +5,7 @@ import (
 	"fmt"
 	"github.com/glyphlang/glyph/pkg/ast"
 	"math"
+	"sort"
 	"strings"
 
 	"github.com/glyphlang/glyph/pkg/server"
@@ -42,6 +43,9 @@ type Compiler struct {
 	optimizer     *Optimizer
 	macroExpander *MacroExpander
 	loopStack     []loopContext
+	// calls collects the names of the functions the compiled code calls by
+	// name (OpCall), for the route being compiled; see UnavailableCalls.
+	calls map[string]bool
 }
 
 // NewCompiler creates a new compiler instance
@@ -75,7 +79,24 @@ func (c *Compiler) Reset() {
 	c.symbolTable = NewGlobalSymbolTable()
 	c.labelCounter = 0
 	c.loopStack = nil
+	c.calls = nil
 	// Keep the optimizer with its current settings
+}
+
+// UnavailableCalls returns the functions called by name in the route compiled
+// last that the VM cannot run: it resolves a call among its own built-ins only
+// (no user-defined functions, a subset of the interpreter's built-ins), so such
+// a route compiles but answers "undefined function" at request time. A caller
+// that has an interpreter at hand falls back to it.
+func (c *Compiler) UnavailableCalls() []string {
+	var names []string
+	for name := range c.calls {
+		if !vm.HasBuiltin(name) {
+			names = append(names, name)
+		}
+	}
+	sort.Strings(names)
+	return names
 }
 
 // Compile compiles an AST module to bytecode
@@ -1049,6 +1070,11 @@ func (c *Compiler) compileFunctionCall(expr *ast.FunctionCallExpr) error {
 		}
 	}
 
+	if c.calls == nil {
+		c.calls = make(map[string]bool)
+	}
+	c.calls[expr.Name] = true
+
 	// Push function name first (it will be at bottom of stack)
 	fnNameIdx := c.addConstant(vm.StringValue{Val: expr.Name})
 	c.emitWithOperand(vm.OpPush, uint32(fnNameIdx))
@@ -1527,6 +1553,10 @@ func (c *Compiler) compileAsyncExpr(expr *ast.AsyncExpr) error {
 		symbolTable: c.symbolTable, // Share symbol table for variable access
 		constants:   c.constants,
 	}
+	if c.calls == nil {
+		c.calls = make(map[string]bool)
+	}
+	bodyCompiler.calls = c.calls // calls inside the block count for the route
 
 	// Compile the async body statements
 	for _, stmt := range expr.Body {
